@@ -231,12 +231,54 @@ let observed_discard (c : cval) : bool list option =
        | _, _ -> None)
   | _, _ -> None
 
+let starts_with_s (p : string) (s : string) = String.length s >= String.length p && String.sub s 0 (String.length p) = p
 let starts_with (p : string) (s : string) = String.length s >= String.length p && String.sub s 0 (String.length p) = p
+
+(* ---- direct cases: header lists and property files *)
+let herr_name (e : herr) : string = match e with HFormat -> "format" | HEmptyKey -> "emptykey"
+
+let predict_hdr (f : string array) (obs : string) : string * string * bool =
+  let n = int_of_string f.(1) in
+  let lines = if n = 0 then [] else List.map str_of_hex (String.split_on_char ',' f.(2)) in
+  let per = List.map (fun l -> match hdr_line l with
+    | Inl (k, v) -> "L:" ^ hex_of_str k ^ ":" ^ hex_of_str v
+    | Inr e -> "E:" ^ herr_name e) lines in
+  let (kvs, err) = hdr_decode lines in
+  let res = (match err with None -> "R:ok:" ^ string_of_int (List.length kvs) | Some e -> "R:err:" ^ herr_name e) in
+  let pred = (if per = [] then "-" else String.concat ";" per) ^ " " ^ res in
+  (* the specification, evaluated on the implementation's answer: the list is an error exactly when one of its lines
+     is, and an accepted list yields one header value per line *)
+  let verdict =
+    (match String.split_on_char ' ' obs with
+     | [po; ro] ->
+         let pl = if po = "-" then [] else String.split_on_char ';' po in
+         let any_bad = List.exists (fun x -> starts_with_s "E:" x) pl in
+         if starts_with_s "R:err" ro then (if any_bad then "ok" else "BAD:well-formed-header-list-refused")
+         else if starts_with_s "R:ok:" ro then
+           (if any_bad then "BAD:malformed-header-line-dropped"
+            else if ro = "R:ok:" ^ string_of_int (List.length pl) then "ok" else "BAD:header-line-lost")
+         else "BAD:bad-observation"
+     | _ -> "BAD:bad-observation") in
+  (pred, verdict, true)
+
+let predict_prop (f : string array) (obs : string) : string * string * bool =
+  let content = str_of_hex f.(1) and key = str_of_hex f.(2) in
+  let files (_ : n list) : n list option = Some content in
+  let pred = (match prop_of_files files [] key with Some d -> "ok " ^ hex_of_str d | None -> "err") in
+  (* prop_of_files is proved to be the specification of well-formed files (C17_property_file): compared directly *)
+  let verdict =
+    if obs = pred then "ok"
+    else if pred = "err" then "BAD:missing-property-resolved"
+    else if obs = "err" then "BAD:property-not-found"
+    else "BAD:property-data-wrong" in
+  (pred, verdict, true)
 
 let predict (c : string) (obs : string) : string * string * bool =
   oracle_miss := false;
   let f = Array.of_list (split_blank c) in
   let kind = f.(0) in
+  if kind = "hdr" && Array.length f = 3 then predict_hdr f obs else
+  if kind = "prop" && Array.length f = 3 then predict_prop f obs else
   let off = if kind = "comp" then 3 else 1 in
   if Array.length f <> off + 6 then ("bad-case", "BAD:bad-case", false) else
   let mut = f.(off) and path = parse_path f.(off + 1) in
